@@ -86,8 +86,23 @@ def confirm(prop, f, cldr):
     hk = f.hk or {}
     fields = hk.get("fields", [])
     if any("fmt_" in json.dumps(t) for t in (f.ref, f.gen)):
+        # formatted values: compare the real td_string! output with direct uncached ICU4X calls using the options the
+        # reference prescribes (lib/c18native.py), for every locale of the project
+        import c18native
+        import subprocess
+        try:
+            p = subprocess.run([hostrun.HOST_BIN, "eval", f.case.dir], capture_output=True, text=True, env=hostrun.ENV)
+            h = json.loads(p.stdout)
+            n, bad = c18native.run_project(f.case, h, cldr)
+        except Exception as e:
+            payload["replay_error"] = str(e)[-1500:]
+            path = report.write_replay(prop, name, payload)
+            return "unreplayable", path
+        mine = [b for b in bad if b["key"] == list(f.key)]
+        payload["native_icu_comparison"] = {"requests": n, "mismatches_for_this_key": mine[:4], "other_mismatches": len(bad) - len(mine)}
+        payload["how_to_replay"] = "cd %s && cargo run   (crate written by lib/c18native.py from %s)" % (replay.CRATE, f.case.dir)
         path = report.write_replay(prop, name, payload)
-        return "unreplayable", path
+        return ("confirmed" if mine else "not_reproduced"), path
     nums = {}
     for name_, n in m.get("nums", {}).items():
         nums[name_] = dict(n)
@@ -185,7 +200,7 @@ def count_candidates(ty):
     return [0, 1, -1, 100]
 
 
-def validate_natively(prop, cases, results, cldr, limit):
+def validate_natively(prop, cases, results, cldr, limit, per_project=False):
     """Concrete runs of the real crate (one process per project, every key x locale x a few arguments) against
     (a) the evaluator's term evaluated concretely: validates the encoder and the fixed meanings of library calls,
     (b) the reference denotation evaluated concretely.
@@ -196,7 +211,7 @@ def validate_natively(prop, cases, results, cldr, limit):
     mismatches = []
     violations = []
     for c in cases:
-        fam = c.tag.split("/")[0]
+        fam = c.tag if per_project else c.tag.split("/")[0]
         if fam in done_families or len(done_families) >= limit:
             continue
         h = results.get(c.dir)
@@ -251,7 +266,13 @@ def validate_natively(prop, cases, results, cldr, limit):
         try:
             actuals = replay.run_requests(c.dir, reqs)
         except replay.ReplayError as e:
-            mismatches.append((c.tag, "replay crate failed: %s" % str(e)[-600:]))
+            # is it the generated code itself that rustc rejects ?
+            try:
+                replay.run_requests(c.dir, [])
+                mismatches.append((c.tag, "replay crate failed: %s" % str(e)[-600:]))
+            except replay.ReplayError as e2:
+                violations.append((c, {"key": [], "ns": None, "request": None, "rustc": str(e2)[-1500:],
+                                       "note": "a crate containing only leptos_i18n::load_locales!() on this valid project does not compile (found by the native stage)"}))
             continue
         for r, (ns, path, env, gen, ref), actual in zip(reqs, meta, actuals):
             total += 1
@@ -269,7 +290,7 @@ def validate_natively(prop, cases, results, cldr, limit):
 
 
 def run_property(prop, tier, seed, cases, mode, functions_encoded, bounds, extra_assumptions=(), extra_key_check=None,
-                 side_results=None, level="translation_validation", post=None, validate=None):
+                 side_results=None, level="translation_validation", post=None, validate=None, validate_per_project=False):
     t0 = time.time()
     try:
         hostrun.build_host()
@@ -292,7 +313,7 @@ def run_property(prop, tier, seed, cases, mode, functions_encoded, bounds, extra
         validate = 1 if tier == "quick" else 6
     val_total, val_mismatch, val_viol = (0, [], [])
     if validate and not findings:
-        val_total, val_mismatch, val_viol = validate_natively(prop, cases, stats.host_results, cldr, validate)
+        val_total, val_mismatch, val_viol = validate_natively(prop, cases, stats.host_results, cldr, validate, validate_per_project)
         for tag, why in val_mismatch:
             stats.inconclusive.append((tag, "ENCODER-MISMATCH " + why))
         for c, payload in val_viol[:50]:
